@@ -2,7 +2,7 @@
    mapping codec tables regenerated from /repo/mapping on every run (struct tags of
    IndexMappingImpl / DocumentMapping / FieldMapping / customAnalysis, the `case "key":` lists of
    the three hand-written UnmarshalJSON methods, the defaults they set before decoding). *)
-From Coq Require Import ZArith List Bool.
+From Coq Require Import String ZArith List Bool.
 From Verif Require Import Common.Bytes Codec.Json Codec.StructCodec Codec.MappingTables Extracted.Extracted.
 Import ListNotations.
 Local Open Scope Z_scope.
